@@ -410,3 +410,7 @@ def run(ctx):
     from ..names import name_binding
     name_binding(ctx, 'R17.7', ['nbdime.gitfiles', 'nbdime.vcs.git.filter_integration'] if ctx.tier == 'quick' else ['nbdime.'])
     worktree_streams(ctx, 'R17.8', 'R17.9')
+
+
+from .extra import with_extra  # noqa: E402
+run = with_extra('C17', run)
